@@ -332,6 +332,30 @@ def replayLabels (committed : List (Nat × List WalRec)) : Except OpenErr Intern
           .ok (t ++ gap ++ [name])
       | _ => .ok t) t) []
 
+/-- engine.rs replay_graph_transactions, the `match op` of the inner loop: node / label records go
+    to the idmap, the others to the transaction's memtable -/
+def replayOp (a : IdMap × MemTable) : WalRec → Except OpenErr (IdMap × MemTable)
+  | .createNode x label iid =>
+    match a.1.lookup x with
+    | some existing => if existing != iid then .error .walProtocol else .ok a
+    | none => match a.1.applyCreate x label iid with
+      | .ok m => .ok (m, a.2)
+      | .error e => .error (.idmap e)
+  | .addNodeLabel n l => match a.1.applyAddLabel n l with
+    | .ok m => .ok (m, a.2)
+    | .error e => .error (.idmap e)
+  | .removeNodeLabel n l => match a.1.applyRemoveLabel n l with
+    | .ok m => .ok (m, a.2)
+    | .error e => .error (.idmap e)
+  | .createEdge e => .ok (a.1, a.2.createEdge e)
+  | .tombstoneNode n => .ok (a.1, a.2.tombstoneNode n)
+  | .tombstoneEdge e => .ok (a.1, a.2.tombstoneEdge e)
+  | .setNodeProperty n k v => .ok (a.1, a.2.setNodeProp n k v)
+  | .setEdgeProperty e k v => .ok (a.1, a.2.setEdgeProp e k v)
+  | .removeNodeProperty n k => .ok (a.1, a.2.removeNodeProp n k)
+  | .removeEdgeProperty e k => .ok (a.1, a.2.removeEdgeProp e k)
+  | _ => .ok a
+
 /-- engine.rs replay_graph_transactions: one memtable per transaction newer than the checkpoint,
     records applied IN FILE ORDER; runs come out oldest first -/
 def replayGraph (committed : List (Nat × List WalRec)) (ckpt : Nat) (m : IdMap) :
@@ -339,28 +363,7 @@ def replayGraph (committed : List (Nat × List WalRec)) (ckpt : Nat) (m : IdMap)
   committed.foldlM (fun (acc : IdMap × List Run) tx =>
     if tx.1 ≤ ckpt then .ok acc
     else do
-      let (m, mt) ← tx.2.foldlM (fun (a : IdMap × MemTable) op =>
-        match op with
-        | .createNode x label iid =>
-          match a.1.lookup x with
-          | some existing => if existing != iid then .error .walProtocol else .ok a
-          | none => match a.1.applyCreate x label iid with
-            | .ok m => .ok (m, a.2)
-            | .error e => .error (.idmap e)
-        | .addNodeLabel n l => match a.1.applyAddLabel n l with
-          | .ok m => .ok (m, a.2)
-          | .error e => .error (.idmap e)
-        | .removeNodeLabel n l => match a.1.applyRemoveLabel n l with
-          | .ok m => .ok (m, a.2)
-          | .error e => .error (.idmap e)
-        | .createEdge e => .ok (a.1, a.2.createEdge e)
-        | .tombstoneNode n => .ok (a.1, a.2.tombstoneNode n)
-        | .tombstoneEdge e => .ok (a.1, a.2.tombstoneEdge e)
-        | .setNodeProperty n k v => .ok (a.1, a.2.setNodeProp n k v)
-        | .setEdgeProperty e k v => .ok (a.1, a.2.setEdgeProp e k v)
-        | .removeNodeProperty n k => .ok (a.1, a.2.removeNodeProp n k)
-        | .removeEdgeProperty e k => .ok (a.1, a.2.removeEdgeProp e k)
-        | _ => .ok a) (acc.1, {})
+      let (m, mt) ← tx.2.foldlM replayOp (acc.1, {})
       let run := mt.freeze tx.1
       pure (m, if run.isEmpty then acc.2 else acc.2 ++ [run])) (m, [])
 
